@@ -6,7 +6,6 @@ use prototk::FieldNumber;
 use tuple_key as tk1;
 use tuple_key::Element;
 use tuple_key2 as tk2;
-use vcore::stable_hash;
 
 use crate::tup::*;
 use crate::tupcheck::{Finding, esc, norm};
@@ -61,28 +60,57 @@ impl Default for HostileCtx {
     }
 }
 
-#[derive(Default)]
 pub struct Obs {
     pub calls: u64,
-    /// a typed parser (not a mere iterator) accepted the bytes
+    /// a typed parser (not a mere iterator, not a bare value decoder) accepted the raw bytes
     pub accepted: bool,
-    pub classes: Vec<u64>,
+    /// observation classes not seen before by this Obs (drained by the caller into the outcomes)
+    pub fresh: Vec<u64>,
     pub findings: Vec<Finding>,
     pub reencode_same: u64,
     pub reencode_differs: u64,
+    cache: Vec<u64>,
+}
+
+impl Default for Obs {
+    fn default() -> Self {
+        Obs { calls: 0, accepted: false, fresh: vec![], findings: vec![], reencode_same: 0, reencode_differs: 0, cache: Vec::new() }
+    }
+}
+
+/// a cheap, process-independent identity of a static message
+fn msg_id(m: &str) -> u64 {
+    let b = m.as_bytes();
+    ((b.len() as u64) << 16) | ((*b.first().unwrap_or(&0) as u64) << 8) | (*b.last().unwrap_or(&0) as u64)
 }
 
 impl Obs {
-    fn class<T: std::hash::Hash>(&mut self, t: &T) {
-        let h = stable_hash(t);
-        if !self.classes.contains(&h) {
-            self.classes.push(h);
+    /// start the next input: counters cleared, the class cache kept
+    pub fn reset(&mut self) {
+        self.calls = 0;
+        self.accepted = false;
+        self.findings.clear();
+        self.reencode_same = 0;
+        self.reencode_differs = 0;
+    }
+
+    /// program, depth, kind, dir and a small result id make one class
+    fn class(&mut self, prog: u8, a: u8, b: u8, c: u8, id: u64) {
+        let key = ((prog as u64) << 56) | ((a as u64) << 50) | ((b as u64) << 44) | ((c as u64) << 40) | (id & 0xff_ffff_ffff);
+        let key = key | 1 << 63;
+        if self.cache.is_empty() {
+            self.cache = vec![0; 4096];
+        }
+        let slot = (key.wrapping_mul(0x9e37_79b9_7f4a_7c15) >> 52) as usize;
+        if self.cache[slot] != key {
+            self.cache[slot] = key;
+            self.fresh.push(key);
         }
     }
 }
 
 /// parse a type sequence without demanding the end of the key; says whether more follows
-fn v1_parse_seq(tk: &tk1::TupleKey, fields: &[u32], schema: &[Elem]) -> Result<(Vec<Val>, bool), (usize, String)> {
+fn v1_parse_seq(tk: &tk1::TupleKey, fields: &[u32], schema: &[Elem]) -> Result<(Vec<Val>, bool), (usize, &'static str)> {
     let mut p = tk1::TupleKeyParser::new(tk);
     let mut out = vec![];
     for (i, (e, f)) in schema.iter().zip(fields.iter()).enumerate() {
@@ -96,7 +124,7 @@ fn v1_parse_seq(tk: &tk1::TupleKey, fields: &[u32], schema: &[Elem]) -> Result<(
             Kind::I64 => p.parse_next_with_key::<i64>(f, d).map(Val::I64),
             _ => p.parse_next_with_key::<String>(f, d).map(Val::Str),
         };
-        out.push(v.map_err(|e| (i, e.to_string()))?);
+        out.push(v.map_err(|e| (i, e))?);
     }
     let more = !matches!(p.peek_next(), Ok(None));
     Ok((out, more))
@@ -105,14 +133,14 @@ fn v1_parse_seq(tk: &tk1::TupleKey, fields: &[u32], schema: &[Elem]) -> Result<(
 fn v1_tree(cx: &HostileCtx, tk: &tk1::TupleKey, s: &[u8], fields: &mut Vec<u32>, schema: &mut Vec<Elem>, obs: &mut Obs) {
     let depth = schema.len();
     for e in cx.v1_elems.iter() {
-        for f in [1u32, 15] {
+        for f in [depth as u32 + 1] {
             schema.push(*e);
             fields.push(f);
             obs.calls += 1;
             match v1_parse_seq(tk, fields, schema) {
                 Ok((vals, more)) => {
                     obs.accepted = true;
-                    obs.class(&("v1-tree", depth, e.0, e.1, "ok", more));
+                    obs.class(1, depth as u8, e.0 as u8, e.1 as u8, more as u64);
                     if !more {
                         if v1_encode(fields, schema, &vals) == s {
                             obs.reencode_same += 1;
@@ -125,7 +153,7 @@ fn v1_tree(cx: &HostileCtx, tk: &tk1::TupleKey, s: &[u8], fields: &mut Vec<u32>,
                 }
                 Err((i, m)) => {
                     if i == depth {
-                        obs.class(&("v1-tree", depth, e.0, e.1, m));
+                        obs.class(1, depth as u8, e.0 as u8, e.1 as u8, 2 + msg_id(m));
                     }
                 }
             }
@@ -154,7 +182,12 @@ pub fn run_v1(cx: &HostileCtx, s: &[u8], obs: &mut Obs) {
         let p = tk1::TupleKeyParser::new(&tk);
         let peek = p.peek_next();
         o.calls += 3;
-        o.class(&("v1-iter", n.min(4), c.min(4), peek.is_ok(), peek.ok().flatten().map(|x| (x.1 as u8, x.2 as u8))));
+        let pk = match peek {
+            Err(_) => 1u64,
+            Ok(None) => 2,
+            Ok(Some(x)) => 3 + ((x.1 as u64) << 4) + ((x.2 as u64) << 8),
+        };
+        o.class(2, n.min(4) as u8, c.min(4) as u8, 0, pk);
     });
     guard(&mut o, "tuple_key", "iterator-and-peek", s, r);
     // 2. typed parser programs on the raw bytes
@@ -165,7 +198,7 @@ pub fn run_v1(cx: &HostileCtx, s: &[u8], obs: &mut Obs) {
     // 3. a matching tag in front, so that the value parsers see the hostile bytes
     let r = vcore::catch(|| {
         for (e, f, tag) in cx.v1_tags.iter() {
-            if *f != 1 {
+            if *f != 1 || !matches!(e.0, Kind::Unit | Kind::Str) {
                 continue;
             }
             let mut key = tag.clone();
@@ -174,8 +207,7 @@ pub fn run_v1(cx: &HostileCtx, s: &[u8], obs: &mut Obs) {
             o.calls += 1;
             match v1_parse_seq(&tk, &[*f], &[*e]) {
                 Ok((vals, more)) => {
-                    o.accepted = true;
-                    o.class(&("v1-tagged", e.0, e.1, "ok", more));
+                    o.class(3, 0, e.0 as u8, e.1 as u8, more as u64);
                     if !more {
                         if v1_encode(&[*f], &[*e], &vals) == key {
                             o.reencode_same += 1;
@@ -184,7 +216,7 @@ pub fn run_v1(cx: &HostileCtx, s: &[u8], obs: &mut Obs) {
                         }
                     }
                 }
-                Err((_, m)) => o.class(&("v1-tagged", e.0, e.1, m)),
+                Err((_, m)) => o.class(3, 0, e.0 as u8, e.1 as u8, 2 + msg_id(m)),
             }
         }
     });
@@ -198,28 +230,41 @@ pub fn run_v1(cx: &HostileCtx, s: &[u8], obs: &mut Obs) {
         let d = <i32 as Element>::parse_from(s).is_ok();
         let e = <i64 as Element>::parse_from(s).is_ok();
         let f = <String as Element>::parse_from(s).is_ok();
-        o.class(&("v1-element", a, b, c, d, e, f));
+        o.class(4, 0, 0, 0, (a as u64) | (b as u64) << 1 | (c as u64) << 2 | (d as u64) << 3 | (e as u64) << 4 | (f as u64) << 5);
     });
     guard(&mut o, "tuple_key", "element-parse-from", s, r);
     // 5. the schema walker, which decodes by the type written in each tag
     let r = vcore::catch(|| {
-        o.calls += 4;
+        o.calls += 1;
         let l = cx.v1_schema.lookup(&tk).map(|x| *x);
-        let a = cx.v1_schema.args_for_key(&tk).map(|v| v.len());
-        let t = cx.v1_schema.is_terminal(&tk).ok();
-        let c = tk.conforms_to(&cx.v1_schema);
+        // the other entry points walk the same recursion; they are asked when it got anywhere
+        let (a, t, c) = if l.is_ok() || s.len() <= 2 {
+            o.calls += 3;
+            (cx.v1_schema.args_for_key(&tk).map(|v| v.len()), cx.v1_schema.is_terminal(&tk).ok(), tk.conforms_to(&cx.v1_schema))
+        } else {
+            (Ok(99), None, false)
+        };
         if l.is_ok() && !s.is_empty() {
             o.accepted = true;
         }
-        o.class(&("v1-schema", l.ok(), a.ok(), t, c));
+        o.class(5, l.ok().unwrap_or(9), a.ok().unwrap_or(99).min(60) as u8, t.map(|x| x as u8).unwrap_or(2), c as u64);
     });
     guard(&mut o, "tuple_key", "schema-lookup", s, r);
     *obs = o;
 }
 
-fn v2_err_name(e: &tk2::Error) -> String {
-    let t = format!("{e:?}");
-    t.split(|c: char| !c.is_ascii_alphanumeric()).next().unwrap_or("").to_string()
+fn v2_err_id(e: &tk2::Error) -> u64 {
+    match e {
+        tk2::Error::UnexpectedEnd => 1,
+        tk2::Error::InvalidIntegerTag { .. } => 2,
+        tk2::Error::InvalidUnitTag { .. } => 3,
+        tk2::Error::NonCanonicalInteger => 4,
+        tk2::Error::ValueOutOfRange { .. } => 5,
+        tk2::Error::InvalidBytesEscape { .. } => 6,
+        tk2::Error::UnterminatedBytes => 7,
+        tk2::Error::InvalidUtf8 => 8,
+        tk2::Error::TrailingBytes { .. } => 9,
+    }
 }
 
 fn v2_tree(p: &tk2::TupleKeyParser<'_>, s: &[u8], schema: &mut Vec<Elem>, vals: &mut Vec<Val>, obs: &mut Obs) {
@@ -233,7 +278,7 @@ fn v2_tree(p: &tk2::TupleKeyParser<'_>, s: &[u8], schema: &mut Vec<Elem>, vals: 
                 schema.push((k, Dir::Asc));
                 vals.push(v);
                 let done = q.is_empty();
-                obs.class(&("v2-tree", depth, k, "ok", done));
+                obs.class(6, depth as u8, k as u8, 0, 100 + done as u64);
                 if done {
                     obs.calls += 1;
                     let fin = q.clone().finish().is_ok();
@@ -247,19 +292,18 @@ fn v2_tree(p: &tk2::TupleKeyParser<'_>, s: &[u8], schema: &mut Vec<Elem>, vals: 
                 } else {
                     obs.calls += 1;
                     let fin = q.clone().finish();
-                    obs.class(&("v2-finish", fin.is_ok()));
+                    obs.class(7, 0, 0, 0, fin.is_ok() as u64);
                 }
                 schema.pop();
                 vals.pop();
             }
             Err(e) => {
-                obs.class(&("v2-tree", depth, k, v2_err_name(&e)));
+                obs.class(6, depth as u8, k as u8, 0, v2_err_id(&e));
                 // a parser that reported an error is still an object one can ask things
-                obs.calls += 4;
+                obs.calls += 3;
                 let _ = q.offset();
                 let _ = q.remaining().len();
                 let _ = q.is_empty();
-                let _ = q.bytes();
             }
         }
     }
@@ -276,7 +320,7 @@ pub fn run_v2(s: &[u8], obs: &mut Obs) {
         w[..s.len().min(8)].copy_from_slice(&s[..s.len().min(8)]);
         let z = tk2::zero_byte_mask(u64::from_le_bytes(w));
         let b = tk2::broad_tag_candidate_mask(u64::from_le_bytes(w));
-        o.class(&("v2-boundary", c.len(), c2.len() == c.len(), z.count_ones(), b.count_ones()));
+        o.class(8, c.len().min(9) as u8, (c2.len() == c.len()) as u8, z.count_ones() as u8, b.count_ones() as u64);
     });
     guard(&mut o, "tuple_key2", "boundary-candidates", s, r);
     let r = vcore::catch(|| {
@@ -287,34 +331,51 @@ pub fn run_v2(s: &[u8], obs: &mut Obs) {
     *obs = o;
 }
 
+fn v2_decode_lean(schema: &[Elem], bytes: &[u8]) -> Result<Vec<Val>, (usize, u64)> {
+    let mut p = tk2::TupleKeyParser::new(bytes);
+    let mut out = Vec::with_capacity(schema.len());
+    for (i, e) in schema.iter().enumerate() {
+        out.push(v2_parse_one(&mut p, e.0).map_err(|e| (i, v2_err_id(&e)))?);
+    }
+    p.finish().map_err(|e| (schema.len(), v2_err_id(&e)))?;
+    Ok(out)
+}
+
 /// A damaged valid key, parsed with the key's own type sequence (and the walkers).
 pub fn run_damaged(cx: &HostileCtx, c: Crate, fields: &[u32], schema: &[Elem], original: &[Val], s: &[u8], obs: &mut Obs) {
     let mut o = std::mem::take(obs);
     let r = vcore::catch(|| {
         o.calls += 1;
-        match decode(c, fields, schema, s) {
+        let res: Result<Vec<Val>, (usize, u64)> = match c {
+            Crate::V1 => {
+                let tk = tk1::TupleKey::from(s);
+                match v1_parse_seq(&tk, fields, schema) {
+                    Ok((v, false)) => Ok(v),
+                    Ok((_, true)) => Err((schema.len(), 0)),
+                    Err((i, m)) => Err((i, msg_id(m))),
+                }
+            }
+            Crate::V2 => v2_decode_lean(schema, s),
+        };
+        match res {
             Ok(v) => {
                 o.accepted = true;
                 let same = v == original;
-                o.class(&("damaged", c, "ok", same));
+                o.class(9, c as u8, 0, 0, same as u64);
                 if encode(c, fields, schema, &v) == s {
                     o.reencode_same += 1;
                 } else {
                     o.reencode_differs += 1;
                 }
             }
-            Err((i, m)) => {
-                let m = if c == Crate::V2 { m.split(|ch: char| !ch.is_ascii_alphanumeric()).next().unwrap_or("").to_string() } else { m };
-                o.class(&("damaged", c, i.min(3), m));
-            }
+            Err((i, id)) => o.class(9, c as u8, 1 + i.min(3) as u8, 0, id),
         }
         match c {
             Crate::V1 => {
-                o.calls += 3;
+                o.calls += 2;
                 let tk = tk1::TupleKey::from(s);
                 let _ = tk.iter().count();
                 let _ = cx.v1_schema.lookup(&tk).is_ok();
-                let _ = cx.v1_schema.args_for_key(&tk).is_ok();
             }
             Crate::V2 => {
                 o.calls += 1;
